@@ -355,7 +355,7 @@ fn finish(rng: &mut Rng, mut st: Start) -> Option<Start> {
     Some(st)
 }
 
-pub const N_SCEN: usize = 20;
+pub const N_SCEN: usize = 21;
 pub const SCEN_NAMES: [&str; N_SCEN] = [
     "ep_rank_exposure",
     "ep_after_interposing_push",
@@ -377,6 +377,7 @@ pub const SCEN_NAMES: [&str; N_SCEN] = [
     "stalemate_factory",
     "only_move_is_ep",
     "ep_interposes_check",
+    "special_move_ends_game",
 ];
 
 /// Try to produce an instance of scenario `id`; None if this draw did not validate.
@@ -1094,9 +1095,23 @@ pub fn scenario(rng: &mut Rng, id: usize) -> Option<Start> {
             let f = pf?;
             // (in the pinned variant the pawn stands on e5 and the capture must run towards the pinner on g7/h8)
             let pinned_variant = f == 4 && (q.sq[sqm(6, 6) as usize] & 7 == B || q.sq[sqm(6, 6) as usize] & 7 == Q || q.sq[sqm(7, 7) as usize] & 7 == B || q.sq[sqm(7, 7) as usize] & 7 == Q);
-            let g = if pinned_variant { 5 } else { f + *rng.pick(&[-1i8, 1]) };
+            // (second pinned sub-variant: the push comes on the d-file, where the pinned e5 pawn may NOT
+            // capture - off the pin line - while a second pawn on c5 may: two capturers, one of them illegal,
+            // and that capture is the only legal move)
+            let two_capturers = pinned_variant && rng.chance(1, 2);
+            let g = if two_capturers { 3 } else if pinned_variant { 5 } else { f + *rng.pick(&[-1i8, 1]) };
             if g < 0 || g > 7 {
                 return None;
+            }
+            if two_capturers {
+                if q.sq[sqm(2, 4) as usize] != 0 || q.sq[sqm(2, 5) as usize] != 0 {
+                    return None;
+                }
+                q.sq[sqm(2, 4) as usize] = pc(P, WHITE);
+                q.sq[sqm(2, 5) as usize] = pc(*rng.pick(&[P, N, B]), BLACK);
+                if q.has_legal_move() {
+                    return None;
+                }
             }
             if q.sq[sqm(g, 6) as usize] != 0 || q.sq[sqm(g, 5) as usize] != 0 || q.sq[sqm(g, 4) as usize] != 0 {
                 return None;
@@ -1171,8 +1186,137 @@ pub fn scenario(rng: &mut Rng, id: usize) -> Option<Start> {
             }
             finish(rng, Start::plain(p, tag))
         }
+        20 => special_move_ends_game(rng).and_then(|st| finish(rng, st)),
         _ => None,
     }
+}
+
+/// Search-based workload: a *special* move (en-passant capture, castling, promotion) by White ends the
+/// game - mate or stalemate - against a hemmed-in black king.  Candidates are drawn around the motif
+/// and kept only if the model says the position after the move has no legal move.  Half of the
+/// instances carry the final move in the prelude (the terminal position itself is visited), half
+/// leave it to the monitors' fan-out / look-ahead.
+fn special_move_ends_game(rng: &mut Rng) -> Option<Start> {
+    let tag = SCEN_NAMES[20];
+    for _ in 0..60 {
+        let mut p = RPos::empty();
+        let mut prelude: Vec<RMove> = vec![];
+        let fin: RMove;
+        let kind_of = rng.below(6);
+        let bk: Sq;
+        let mut reserved: u64 = 0;
+        match kind_of {
+            0 | 1 | 2 => {
+                // e.p.: black pawn x7-x5, white pawn on the fifth rank beside it captures onto x6
+                let x = rng.range(0, 7) as i8;
+                let wf = x + *rng.pick(&[-1i8, 1]);
+                if wf < 0 || wf > 7 {
+                    continue;
+                }
+                p.sq[sqm(x, 6) as usize] = pc(P, BLACK);
+                p.sq[sqm(wf, 4) as usize] = pc(P, WHITE);
+                reserved |= bit(sqm(x, 6)) | bit(sqm(x, 5)) | bit(sqm(x, 4)) | bit(sqm(wf, 4));
+                // the king: attacked by the pawn arriving on x6 (kinds 0, 1), or anywhere near (2: the mate
+                // then has to come from a line opened by the capture)
+                let k = if kind_of < 2 { mk(x + *rng.pick(&[-1i8, 1]), 6) } else { mk(x + rng.range(0, 4) as i8 - 2, rng.range(4, 7) as i8) };
+                let k = match k {
+                    Some(k) if p.sq[k as usize] == 0 && reserved & bit(k) == 0 => k,
+                    _ => continue,
+                };
+                bk = k;
+                prelude.push(RMove::new(sqm(x, 6), sqm(x, 4), 0));
+                fin = RMove::new(sqm(wf, 4), sqm(x, 5), 0);
+            }
+            3 => {
+                // castling: the rook arrives on f1 / d1 and checks along the file
+                let short = rng.chance(1, 2);
+                p.sq[4] = pc(K, WHITE);
+                p.sq[if short { 7 } else { 0 }] = pc(R, WHITE);
+                p.castle = if short { WK } else { WQ };
+                let file = if short { 5 } else { 3 };
+                bk = sqm(file + if rng.chance(1, 4) { *rng.pick(&[-1i8, 1]) } else { 0 }, rng.range(2, 7) as i8);
+                reserved |= bit(4) | bit(5) | bit(6) | bit(3) | bit(2) | bit(1) | bit(0) | bit(7);
+                for r in 1..8 {
+                    reserved |= bit(sqm(file, r));
+                }
+                fin = RMove::new(4, if short { 6 } else { 2 }, 0);
+            }
+            _ => {
+                // promotion (also under-promotion, also with capture) next to a king on the back rank
+                let x = rng.range(0, 7) as i8;
+                p.sq[sqm(x, 6) as usize] = pc(P, WHITE);
+                let cap = rng.chance(1, 3);
+                let tx = if cap { x + *rng.pick(&[-1i8, 1]) } else { x };
+                if tx < 0 || tx > 7 {
+                    continue;
+                }
+                if cap {
+                    p.sq[sqm(tx, 7) as usize] = pc(*rng.pick(&[N, B, R, Q]), BLACK);
+                }
+                reserved |= bit(sqm(x, 6)) | bit(sqm(tx, 7)) | bit(sqm(x, 7));
+                let k = match mk(tx + *rng.pick(&[-2i8, -1, 1, 2, 2, -2]), *rng.pick(&[7i8, 7, 6])) {
+                    Some(k) if p.sq[k as usize] == 0 && reserved & bit(k) == 0 => k,
+                    _ => continue,
+                };
+                bk = k;
+                fin = RMove::new(sqm(x, 6), sqm(tx, 7), *rng.pick(&[Q, Q, R, B, N, N]));
+            }
+        }
+        p.sq[bk as usize] = pc(K, BLACK);
+        reserved |= bit(bk);
+        let (kf, kr) = fr(bk);
+        // black men on some neighbouring squares (they take flight squares away)
+        for d in KG.iter() {
+            if let Some(s) = mk(kf + d.0, kr + d.1) {
+                if p.sq[s as usize] == 0 && reserved & bit(s) == 0 && rng.chance(2, 5) {
+                    let k = *rng.pick(&[P, P, N, B, R]);
+                    if !(k == P && (s >> 3 == 0 || s >> 3 == 7)) {
+                        p.sq[s as usize] = pc(k, BLACK);
+                    }
+                }
+            }
+        }
+        // white men around
+        for _ in 0..rng.range(2, 5) {
+            let k = *rng.pick(&[Q, R, B, N, R, Q, P]);
+            for _ in 0..10 {
+                if let Some(s) = mk(kf + rng.range(0, 8) as i8 - 4, kr + rng.range(0, 8) as i8 - 4) {
+                    if p.sq[s as usize] == 0 && reserved & bit(s) == 0 && !(k == P && (s >> 3 == 0 || s >> 3 == 7)) {
+                        p.sq[s as usize] = pc(k, WHITE);
+                        break;
+                    }
+                }
+            }
+        }
+        if p.king_sq(WHITE).is_none() && !place_king_somewhere(rng, &mut p, WHITE, reserved) {
+            continue;
+        }
+        p.stm = if prelude.is_empty() { WHITE } else { BLACK };
+        if !p.valid() {
+            continue;
+        }
+        let mut q = p.clone();
+        let mut ok = true;
+        for m in prelude.iter() {
+            if !q.is_legal(*m) {
+                ok = false;
+                break;
+            }
+            q = q.make(*m);
+        }
+        if !ok || !q.is_legal(fin) {
+            continue;
+        }
+        let end = q.make(fin);
+        if end.has_legal_move() {
+            continue;
+        }
+        if rng.chance(1, 2) {
+            prelude.push(fin);
+        }
+        return Some(Start { pos: p, prelude, tag });
+    }
+    None
 }
 
 /// Search-based workload: a position in which White (to move) is stalemated although it still owns
